@@ -401,6 +401,7 @@ public:
     /// \returns *this
     constexpr auto erase(size_type index = 0, size_type count = npos) noexcept -> basic_inplace_string&
     {
+        TETL_PRECONDITION(index <= size());
         auto safeCount = etl::min(count, size() - index);
         erase(begin() + index, begin() + index + safeCount);
         return *this;
@@ -418,9 +419,11 @@ public:
     /// erase, or end() if no such character exists.
     constexpr auto erase(const_iterator first, const_iterator last) noexcept -> iterator
     {
+        TETL_PRECONDITION(cbegin() <= first);
+        TETL_PRECONDITION(first <= last);
+        TETL_PRECONDITION(last <= cend());
         auto const start    = static_cast<size_type>(etl::distance(cbegin(), first));
         auto const distance = static_cast<size_type>(etl::distance(first, last));
-        TETL_PRECONDITION(size() > distance);
         etl::rotate(begin() + start, begin() + start + distance, end());
         unsafe_set_size(size() - distance);
         return begin() + start;
@@ -787,11 +790,10 @@ public:
     /// a new string.
     constexpr auto replace(size_type pos, size_type count, basic_inplace_string const& str) -> basic_inplace_string&
     {
-        TETL_PRECONDITION(pos < size());
-        TETL_PRECONDITION(pos + count < size());
+        TETL_PRECONDITION(pos <= size());
 
         auto* f = data() + pos;
-        auto* l = data() + pos + count;
+        auto* l = f + etl::min(count, size() - pos);
         detail::str_replace(f, l, str.begin(), str.end());
         return *this;
     }
@@ -811,24 +813,23 @@ public:
     replace(size_type pos, size_type count, basic_inplace_string const& str, size_type pos2, size_type count2 = npos)
         -> basic_inplace_string&
     {
-        TETL_PRECONDITION(pos < size());
-        TETL_PRECONDITION(pos2 < str.size());
+        TETL_PRECONDITION(pos <= size());
+        TETL_PRECONDITION(pos2 <= str.size());
 
-        auto* f        = data() + etl::min(pos, size());
-        auto* l        = data() + etl::min(pos + count, size());
-        auto const* sf = etl::next(str.begin(), static_cast<etl::ptrdiff_t>(etl::min(pos2, str.size())));
-        auto const* sl = etl::next(str.begin(), static_cast<etl::ptrdiff_t>(etl::min(pos2 + count2, str.size())));
+        auto* f        = data() + pos;
+        auto* l        = f + etl::min(count, size() - pos);
+        auto const* sf = etl::next(str.begin(), static_cast<etl::ptrdiff_t>(pos2));
+        auto const* sl = etl::next(sf, static_cast<etl::ptrdiff_t>(etl::min(count2, str.size() - pos2)));
         detail::str_replace(f, l, sf, sl);
         return *this;
     }
 
     constexpr auto replace(size_type pos, size_type count, Char const* str, size_type count2) -> basic_inplace_string&
     {
-        TETL_PRECONDITION(pos < size());
-        TETL_PRECONDITION(pos + count < size());
+        TETL_PRECONDITION(pos <= size());
 
-        auto* f = next(data(), min(pos, size()));
-        auto* l = next(data(), min(pos + count, size()));
+        auto* f = next(data(), pos);
+        auto* l = next(f, min(count, size() - pos));
         detail::str_replace(f, l, str, next(str, count2));
         return *this;
     }
@@ -844,11 +845,10 @@ public:
 
     constexpr auto replace(size_type pos, size_type count, Char const* str) -> basic_inplace_string&
     {
-        TETL_PRECONDITION(pos < size());
-        TETL_PRECONDITION(pos + count < size());
+        TETL_PRECONDITION(pos <= size());
 
-        auto* f = next(data(), min(pos, size()));
-        auto* l = next(data(), min(pos + count, size()));
+        auto* f = next(data(), pos);
+        auto* l = next(f, min(count, size() - pos));
         detail::str_replace(f, l, str, next(str, strlen(str)));
         return *this;
     }
@@ -1284,6 +1284,9 @@ private:
 
     constexpr auto insert_impl(iterator pos, const_pointer text, size_type count) -> void
     {
+        TETL_PRECONDITION(begin() <= pos);
+        TETL_PRECONDITION(pos <= end());
+
         // Insert text at end.
         auto* currentEnd = end();
         append(text, count);
